@@ -156,7 +156,13 @@ func (g *gen) pickPath(kind string) string {
 				return p
 			}
 		}
-		return model.Join(rt.Pick(g.r, d), fmt.Sprintf("n%d", g.r.Intn(1000)))
+		for {
+			g.seq++
+			p := model.Join(rt.Pick(g.r, d), fmt.Sprintf("n%d", g.seq))
+			if t.N[p] == nil {
+				return p
+			}
+		}
 	case "orphan":
 		base := g.pickPath("missing")
 		return model.Join(base, rt.Pick(g.r, g.names))
@@ -329,6 +335,11 @@ func (g *gen) overwriteHeader() (string, bool) {
 
 func (g *gen) destinationHeader(p string) (string, bool) {
 	sp := g.spell(p)
+	for strings.HasPrefix(sp, "//") {
+		// a scheme-less value starting with "//" is a network-path reference
+		// (RFC 3986): it names another authority, not this path
+		sp = sp[1:]
+	}
 	switch g.r.Weighted([]int{45, 40, 4, 3, 3, 2, 1}) {
 	case 0:
 		return sp, true
